@@ -15,7 +15,17 @@ OBLIGATIONS = [
     (P + "prefix_bound_counterexample", "historical D1: the pre-fix bound accepts length 7 at ptr 0 in an 8-byte archive"),
     (P + "save_load_roundtrip", "for every type and well-formed value within the uint32 guard: load (save v) = v and the loader ends at eof"),
     (P + "save_load_roundtrip_framed", "the same at any position inside a larger archive"),
-    (P + "wrappers_roundtrip", "session/cache store_data then fetch_data returns the object, for any store with get (set k d) = d (C06/C07 law as hypothesis; wrapper shapes checked by the translator)"),
+    (P + "pod_codec_roundtrip", "unsigned-integer object representation (either byte order, from the compiler's macros): decode(encode n) = n mod 256^k, k bytes, encode(decode b) = b"),
+    (P + "operator_lt_order", "operator< of the model: strict weak order on every type (asymmetric, negatively transitive, transitive); total (incomparable => equal) on well-formed values of key types"),
+    (P + "multi_containers_keep_load_order", "multimap/multiset load of any archive: result is a permutation of the entries read and every key class keeps its archive order (stable)"),
+    (P + "unique_containers_keep_first", "map/set load of any archive: of the entries of one key class exactly the first one read survives"),
+    (P + "json_law_from_C11", "the jsonRT hypothesis for C11's codec (compact save, full load; flags regenerated from archive_traits.h) is C11's write_parse_roundtrip_partial with mapNum rt v = v"),
+    (P + "json_value_roundtrip", "a json::value saved to an archive loads back to the same tree under C11's hypotheses and the uint32 guard on its text"),
+    (P + "session_store_data_fetch_data_roundtrip", "session store_data then fetch_data (same request: C06 setValue/dfind; next request: C06 loadData_saveData) returns the object; key < 1024 bytes, serialised object < 2 MiB"),
+    (P + "session_store_data_over_limit_throws", "a serialised object of >= 2 MiB makes the session's save_data throw"),
+    (P + "cache_fetch_data_returns_latest_store_data", "cache fetch_data hit = bytes of the most recent, not invalidated store of the key (C07 fetch_returns_latest_store); loading them yields the stored object"),
+    (P + "cache_store_data_fetch_data_roundtrip", "cache store_data then fetch_data before the deadline with no invalidating operation and no eviction hits and yields the object (C07 live_entry_always_found)"),
+    (P + "wrappers_roundtrip", "abstract form kept for other stores: any store with get (set k d) = d"),
     (P + "string_chunk_truncates", "beyond the guard: write_chunk stores len mod 2^32, the string is read back truncated"),
     (P + "string_roundtrip_fails_beyond_guard", "a std::string of >= 2^32 bytes does not round-trip (why sizesFit is needed)"),
 ]
@@ -25,7 +35,13 @@ TYPES = ("B.L.s B.M.s.v4 B.p4 B.s C.s L.C.p4 L.L.s L.R.s L.X.p4.s L.s L.v2 M.P.p
          "M.s.M.p2.s M.s.p8 M.s.v4 P.L.s.S.p4 P.R.p1.R.M.s.p4 P.p4.s P.s.P.p1.v8 Q.L.s Q.p4 Q.s R.B.s R.L.s R.R.s R.p4 R.s "
          "S.L.s S.P.p2.s S.p4 S.p8 S.s S.v1 U.L.s U.s X.R.s.Q.P.p4.s X.p4.s X.s.X.v2.S.s d8 i4 p1 p2 p4 p8 s v1 v2 v4 v8 "
          "W.p4 W.s W.P.p1.s L.W.p2 N.p4.s N.s.v4 N.p1.W.s M.W.p1.s B.A3.s B.p12 B.A2.L.s X.p8.A2.S.s B.A1.M.s.p4 "
-         "j L.j M.s.j R.j P.p4.j B.j X.j.s H.s H.v4 B.H.M.s.p2 K.s L.K.p4 K.S.s I.s Q.I.v2 X.I.p4.H.s").split()
+         "j L.j M.s.j R.j P.p4.j B.j X.j.s H.s H.v4 B.H.M.s.p2 K.s L.K.p4 K.S.s I.s Q.I.v2 X.I.p4.H.s "
+         "S.v2 M.v4.p1 S.v8 S.S.p2 S.M.p1.s S.Q.p4 S.W.s S.P.s.v2").split()
+
+
+def keyable_name(name):
+    """types whose operator< the harness answers (cmp): unsigned PODs, strings, containers and pairs of them"""
+    return all(w in ("p1", "p2", "p4", "p8", "s", "v1", "v2", "v4", "v8", "L", "Q", "S", "W", "M", "N", "P") for w in name.split("."))
 
 # the harness must not be able to take the machine down when a (mutated) loader loops or allocates without bound
 HARNESS_ENV = {"ASAN_OPTIONS": "detect_leaks=0:abort_on_error=0:allocator_may_return_null=1:hard_rss_limit_mb=3000:max_allocation_size_mb=2000"}
@@ -155,6 +171,33 @@ def gen_val(rng, t, big=1000, depth=0):
     if k == "ptr":
         return None if rng.random() < 0.35 else ("some", gen_val(rng, t[1], big, depth + 1))
     raise ValueError(k)
+
+
+def perturb(rng, t, v):
+    """a value near v (for comparisons): change one leaf / drop or add one element"""
+    k = t[0]
+    if k in ("pod", "str", "vec"):
+        if not v or rng.random() < 0.3:
+            return v + (rbytes(rng, t[1]) if k != "str" else b"a") if k != "pod" else rbytes(rng, t[1])
+        i = rng.randrange(len(v))
+        return v[:i] + bytes([v[i] ^ (1 << rng.randrange(8))]) + v[i + 1:]
+    if k in ("seq", "set", "mset"):
+        if not v:
+            return [gen_val(rng, t[1], 50, 1)]
+        i = rng.randrange(len(v))
+        r = rng.random()
+        if r < 0.25:
+            return v[:i] + v[i + 1:]
+        return v[:i] + [perturb(rng, t[1], v[i])] + v[i + 1:]
+    if k in ("map", "mmap"):
+        if not v:
+            return [(gen_val(rng, t[1], 50, 1), gen_val(rng, t[2], 50, 1))]
+        i = rng.randrange(len(v))
+        a, b = v[i]
+        return v[:i] + [(a, perturb(rng, t[2], b)) if rng.random() < 0.5 else (perturb(rng, t[1], a), b)] + v[i + 1:]
+    if k == "pair":
+        return (perturb(rng, t[1], v[0]), v[1]) if rng.random() < 0.5 else (v[0], perturb(rng, t[2], v[1]))
+    return v
 
 
 def key(t, v):
@@ -371,8 +414,9 @@ def main():
     ]
     c.assumptions += [
         "archive length < 2^64 (hypothesis of load_safe/round-trip theorems: a std::string in a 64-bit address space)",
-        "round trip: value well-formed (wf: POD sizes, sets/map keys strictly increasing) and sizesFit (every chunk payload < 2^32 bytes, counts < 2^64)",
-        "json::value, intrusive/hold/clone_ptr and the session/cache convenience wrappers are not modelled (see design.d/C19.md)",
+        "round trip: value well-formed (wf: POD sizes, sets/map keys strictly increasing, multiset/multimap keys non-decreasing, array lengths), sizesFit (every chunk payload < 2^32 bytes, counts < 2^64) and jsonRT (every json::value inside satisfies read (write v) = some v: C11's law, see json_law_from_C11)",
+        "session wrappers: session map sorted and within save_data's limits, key < 1024 bytes, serialised object < 2 MiB; cache liveness: limit 0, no failing allocation, no invalidating operation, not expired",
+        "json::value is modelled through an external codec (C11's model in the driver); which cookie/token carries the session bytes to the next request is C06's subject",
     ]
 
     c.translate("c19.py")
@@ -437,6 +481,18 @@ def main():
             values.append((name, nv))
             ntk = " ".join(toks(t, nv))
             arch = hexs0(py_save(t, nv))
+            # the archive of the elements in the order generated (unsorted, duplicate keys): what the containers make of it
+            raw = py_save(t, v)
+            if raw != py_save(t, nv):
+                line = f"load{'+' if i % 2 else ''} {name} {hexs0(raw)}"
+                casesA.append(line)
+                expect[line] = f"ok {ntk} @{len(raw)}"
+            if keyable_name(name):
+                for other in (nv, norm(t, gen_val(rng, t, 300)), norm(t, perturb(rng, t, nv))):
+                    for a, b in ((nv, other), (other, nv)):
+                        line = f"cmp {name} {ntk} {' '.join(toks(t, b))}" if a is nv else f"cmp {name} {' '.join(toks(t, a))} {ntk}"
+                        casesA.append(line)
+                        expect[line] = "1" if key(t, a) < key(t, b) else "0"
             for op in ("rt", "rt+", "save") + (("srt", "srt+", "ssave", "crt", "zrt", "crt+", "zrt+", "zsv") if name in serializable else ()):
                 if op == "zsv" and i % 4:
                     continue
@@ -582,7 +638,10 @@ def main():
             kk = om.split(" @")[0] if w[0] != "ops" else ("err " + om.split("err ")[1].split()[0] if "err " in om else "ok")
             kk = kk if kk.startswith("err") else "ok"
             kinds[kk] = kinds.get(kk, 0) + 1
-        if kd == "err" or (kd in ("ok", "bytes") and len(cs.split()) >= 5) or (w[0] in ("load", "sload", "load2") and kd == "ok" and len(om.split()) >= 4):
+        if w[0] == "cmp":
+            if len(cs.split()) >= 5:
+                c.nontrivial.add(cs)
+        elif kd == "err" or (kd in ("ok", "bytes") and len(cs.split()) >= 5) or (w[0] in ("load", "sload", "load2") and kd == "ok" and len(om.split()) >= 4):
             c.nontrivial.add(cs)
     c.extra_cov["op_distribution"] = dist
     c.extra_cov["load_outcomes_in_model"] = kinds
@@ -597,7 +656,7 @@ def main():
             continue
         w = cs.split()
         op = w[0].rstrip("+")
-        if op in ("rt", "srt", "crt", "zrt", "zsv", "save", "ssave"):
+        if op in ("rt", "srt", "crt", "zrt", "zsv", "save", "ssave", "cmp"):
             if cs in expect and o != expect[cs]:
                 bad.append((k, "round trip / serialization differs from the value (python oracle)"))
         elif op in ("load", "sload", "load2"):
@@ -638,7 +697,7 @@ def main():
         for (k, l), o in zip(jl, jout + ["<none>"] * (len(jl) - len(jout))):
             if o != "1":
                 bad.append((k, "Spec.loadOutputOk false on the implementation's result (cursor outside, ill-formed value, or consumed bytes are not the value's serialization)"))
-    c.extra_cov["judged_impl_outputs"] = len(jl) + sum(1 for cs in cases if cs.split(" ", 1)[0].rstrip("+") in ("rt", "srt", "crt", "zrt", "zsv", "save", "ssave", "ops"))
+    c.extra_cov["judged_impl_outputs"] = len(jl) + sum(1 for cs in cases if cs.split(" ", 1)[0].rstrip("+") in ("rt", "srt", "crt", "zrt", "zsv", "save", "ssave", "cmp", "ops"))
 
     for k, err in crashes:
         summ = [l.strip() for l in err.splitlines() if "SUMMARY" in l or "runtime error" in l or "ERROR: AddressSanitizer" in l]
